@@ -239,7 +239,22 @@ func (p *Program) Func(pkgPath, recv, name string) *ssa.Function {
 		return nil
 	}
 	if recv == "" {
-		return sp.Func(name)
+		if f := sp.Func(name); f != nil {
+			return f
+		}
+		// a change of letter case / underscores in the name (ParseData -> parseData) is still the same anchor
+		var found *ssa.Function
+		n := 0
+		for _, m := range sp.Members {
+			if f, ok := m.(*ssa.Function); ok && sameAnchorName(f.Name(), name) {
+				found = f
+				n++
+			}
+		}
+		if n == 1 {
+			return found
+		}
+		return nil
 	}
 	obj := sp.Pkg.Scope().Lookup(recv)
 	if obj == nil {
@@ -257,7 +272,26 @@ func (p *Program) Func(pkgPath, recv, name string) *ssa.Function {
 			}
 		}
 	}
+	// fallback: the same name up to letter case / underscores (handleKEYEvent -> handleKeyEvent), if unique
+	var found *ssa.Function
+	n := 0
+	ms := p.SSA.MethodSets.MethodSet(types.NewPointer(tn.Type()))
+	for i := 0; i < ms.Len(); i++ {
+		if sameAnchorName(ms.At(i).Obj().Name(), name) {
+			found = p.SSA.MethodValue(ms.At(i))
+			n++
+		}
+	}
+	if n == 1 {
+		return found
+	}
 	return nil
+}
+
+// sameAnchorName: equal up to letter case and underscores.
+func sameAnchorName(a, b string) bool {
+	norm := func(s string) string { return strings.ToLower(strings.ReplaceAll(s, "_", "")) }
+	return norm(a) == norm(b)
 }
 
 // Instances returns the instantiations (or the function itself if not generic) of a
@@ -345,6 +379,17 @@ func (p *Program) Field(pkgPath, typ, field string) *types.Var {
 		if st.Field(i).Name() == field {
 			return st.Field(i)
 		}
+	}
+	var found *types.Var
+	n := 0
+	for i := 0; i < st.NumFields(); i++ {
+		if sameAnchorName(st.Field(i).Name(), field) {
+			found = st.Field(i)
+			n++
+		}
+	}
+	if n == 1 {
+		return found
 	}
 	return nil
 }
